@@ -33,6 +33,10 @@ inductive Err
   | syntax
   /-- `TypeError` -/
   | type
+  /-- `AttributeError`: a crash of the converter itself (was C01-D37, `A[:]`, before 35a0ff1; no longer produced) -/
+  | attribute
+  /-- `IndexError`: a crash of the converter itself (was C01-D38 before fc696f7; no longer produced) -/
+  | index
   /-- the model's own fuel for `_generate_unique_name` ran out (impossible: `genUnique_total`) -/
   | fuel
 deriving DecidableEq, Repr, Inhabited
@@ -302,6 +306,101 @@ def isFloatConst : Expr → Bool
 def negatedLiteral (o : String) (a : Expr) : Option Lit :=
   if o = "USub" then (match a with | .lit l => some l | _ => none) else none
 
+/-! ## Constant subscripts (`_translate_subscript_expr` when every index component is an integer constant) -/
+
+/-- `cached_int_consts`: value ↦ the `Constant` holding `[value]`; lives for ONE subscript expression. -/
+abbrev IntCache := List (Int × Name)
+
+def cacheFind : IntCache → Int → Option Name
+  | [], _ => none
+  | (k, n) :: rest, v => if k = v then some n else cacheFind rest v
+
+/-- `const_1d(value)`. -/
+def const1d (c : IntCache) (v : Int) : M (Name × List Node × IntCache) :=
+  match cacheFind c v with
+  | some n => pure (n, [], c)
+  | none => do
+    let (n, ns) ← emitConst (.ints [v]) none
+    pure (n, ns, (v, n) :: c)
+
+def maxInt64 : Int := 9223372036854775807
+def minInt64 : Int := -9223372036854775808
+
+/-- `translate_slice(lo:up:st)`: the step first, then lower and upper with the defaults its sign selects.
+Result: (lower, upper, step). -/
+def convSlice (c : IntCache) (lo up st : Option Int) : M ((Name × Name × Name) × List Node × IntCache) := do
+  let step := st.getD 1
+  let (sn, ns1, c1) ← const1d c step
+  let (ln, ns2, c2) ← const1d c1 (lo.getD (if step > 0 then 0 else maxInt64))
+  let (un, ns3, c3) ← const1d c2 (up.getD (if step > 0 then maxInt64 else minInt64))
+  pure ((ln, un, sn), ns1 ++ (ns2 ++ ns3), c3)
+
+/-- A slice element of the index list with its axis. -/
+abbrev SliceEl := Nat × Option Int × Option Int × Option Int
+
+/-- The loop over `sliced_indices`: per element the axis constant, then `translate_slice`.
+Result: (starts, ends, axes, steps). -/
+def convSlices (c : IntCache) : List SliceEl →
+    M ((List Name × List Name × List Name × List Name) × List Node × IntCache)
+  | [] => pure (([], [], [], []), [], c)
+  | (ax, lo, up, st) :: rest => do
+    let (an, ns0, c0) ← const1d c (Int.ofNat ax)
+    let ((l, u, sn), ns1, c1) ← convSlice c0 lo up st
+    let ((ls, us, as, ss), ns2, c2) ← convSlices c1 rest
+    pure ((l :: ls, u :: us, an :: as, sn :: ss), ns0 ++ (ns1 ++ ns2), c2)
+
+/-- `sliced_indices`: the slices other than `:` with their axes. -/
+def slicedOf : Nat → List Idx → List SliceEl
+  | _, [] => []
+  | ax, .scalar _ :: r => slicedOf (ax + 1) r
+  | ax, .slice lo up st :: r =>
+    if lo.isNone && up.isNone && st.isNone then slicedOf (ax + 1) r else (ax, lo, up, st) :: slicedOf (ax + 1) r
+
+/-- `scalar_indices`: the integer indices with their axes. -/
+def scalarsOf : Nat → List Idx → List (Nat × Int)
+  | _, [] => []
+  | ax, .scalar k :: r => (ax, k) :: scalarsOf (ax + 1) r
+  | ax, .slice _ _ _ :: r => scalarsOf (ax + 1) r
+
+/-- `starts[0]` when there is one slice element, else `Concat(starts, axis=0)` into a fresh `{var}_start`.
+(The four lists have one length, so the four calls decide alike: `if len(starts) > 1`.) -/
+def pickOrConcat (cand : Name) (xs : List Name) : M (Name × List Node) :=
+  match xs with
+  | [x] => pure (x, [])
+  | _ => do
+    let r ← genUnique cand
+    pure (r, [.op "" "Concat" (xs.map some) [r] [("axis", .const "i:0")]])
+
+/-- `_translate_subscript_expr` after the base has been translated to `var`.  The target name is generated
+first, the node defining it is emitted last. -/
+def convSubscript (var : Name) (tgt : Option Name) (idx : List Idx) : M (Name × List Node) := do
+  let target ← genUnique (tgt.getD (var ++ "_subscripted"))
+  let sl := slicedOf 0 idx
+  let sc := scalarsOf 0 idx
+  if !sl.isEmpty || decide (sc.length > 1) then do
+    -- a scalar index `k` is treated as the slice `k:k+1:1` and its axis squeezed at the end
+    let all := sl ++ sc.map (fun p => (p.1, some p.2, some (p.2 + 1), some 1))
+    let ((starts, ends, axes, steps), ns1, _) ← convSlices [] all
+    let (s, n1) ← pickOrConcat (var ++ "_start") starts
+    let (e, n2) ← pickOrConcat (var ++ "_end") ends
+    let (a, n3) ← pickOrConcat (var ++ "_axis") axes
+    let (t, n4) ← pickOrConcat (var ++ "_step") steps
+    if sc.isEmpty then
+      pure (target, ns1 ++ (n1 ++ (n2 ++ (n3 ++ (n4 ++
+        [.op "" "Slice" [some var, some s, some e, some a, some t] [target] []])))))
+    else do
+      let sliced ← genUnique (var ++ "_sliced")
+      let (sq, n5) ← emitConst (.ints (sc.map (fun p => Int.ofNat p.1))) (some "squeezed_axes")
+      pure (target, ns1 ++ (n1 ++ (n2 ++ (n3 ++ (n4 ++
+        (.op "" "Slice" [some var, some s, some e, some a, some t] [sliced] [] ::
+          (n5 ++ [.op "" "Squeeze" [some sliced, some sq] [target] []])))))))
+  else
+    match sc with
+    | [] => pure (target, [.op "" "Identity" [some var] [target] []])     -- `A[:]`, `A[:, :]` (since 35a0ff1)
+    | (ax, k) :: _ => do                                                   -- one integer index: `Gather`
+      let (iv, n1) ← emitConst (.int k) none
+      pure (target, n1 ++ [.op "" "Gather" [some var, some iv] [target] [("axis", .const ("i:" ++ toString ax))]])
+
 mutual
 /-- `_translate_expr(node, target)`: nodes emitted (in order) and the value holding the result. -/
 def convExpr (L : Locals) : Expr → Option Name → M (Name × List Node)
@@ -349,6 +448,10 @@ def convExpr (L : Locals) : Expr → Option Name → M (Name × List Node)
       else do
         let res ← genUnique (tgt.getD "tmp")
         pure (res, ns1 ++ (ns2 ++ (ns3 ++ [.op "" oname (as'.map some) [res] []])))
+  | .subscript base idx, tgt => do
+    let (v, ns1) ← convExpr L base none
+    let (r, ns2) ← convSubscript v tgt idx
+    pure (r, ns1 ++ ns2)
   | .other _, _ => failM .value
 def convArgs (L : Locals) : List Expr → M (List Name × List Node)
   | [] => pure ([], [])
@@ -436,10 +539,13 @@ def loopState (body : List Stmt) (lo : VSet) : Option VSet :=
   | some defs => some (vinter defs (vunion (exposedUses body) lo))
 
 /-- Entering the loop body scope: fresh iteration variable, fresh parameters for the state. -/
-def loopEnter (L : Locals) (pyLoopVar : Name) (state : List Name) :
+def loopScope (L : Locals) (pyLoopVar : Name) (bindIt : Bool) (iv : Name) : Locals :=
+  if bindIt then bindVar ([] :: L) pyLoopVar (.val iv) else [] :: L
+
+def loopEnter (L : Locals) (pyLoopVar : Name) (bindIt : Bool) (state : List Name) :
     M (Locals × Name × List Name) := do
   let iv ← genUnique pyLoopVar
-  let (L1, ps) ← loopParams (bindVar ([] :: L) pyLoopVar (.val iv)) state
+  let (L1, ps) ← loopParams (loopScope L pyLoopVar bindIt iv) state
   pure (L1, iv, ps)
 
 /-- The value the loop condition is read from at the end of the body: `cond_in` for a `for`
@@ -459,21 +565,57 @@ def condNode (brkCond : Option Name) (onnxCond condOut : Name) : Node :=
   | some b => .op "" "Not" [some b] [condOut] []
   | none => .op "" "Identity" [some onnxCond] [condOut] []
 
-/-- The part of `_translate_loop_stmt` after the body statements: condition output
-(`Identity(cond)` or `Not(break condition)`), state outputs, the `Loop` node, rebinding. -/
+/-- `m` if `ok`, else the error `e`. -/
+def guardE {α : Type} (ok : Bool) (e : Err) (m : M α) : M α :=
+  if ok then m else failM e
+
+/-- The condition output of a loop body (after ddfea30): for `while c: …; if b: break` the loop goes on only if the
+break condition does not hold *and* the re-computed while condition does — `not_break = Not(b)`,
+`cond_out = And(c, not_break)`; otherwise one node (`condNode`). -/
+def condNodes (whileVar brkCond : Option Name) (onnxCond : Name) : M (Name × List Node) :=
+  match whileVar, brkCond with
+  | some _, some b => do
+    let nb ← genUnique "not_break"
+    let co ← genUnique "cond_out"
+    pure (co, [.op "" "Not" [some b] [nb] [], .op "" "And" [some onnxCond, some nb] [co] []])
+  | _, _ => do
+    let co ← genUnique "cond_out"
+    pure (co, [condNode brkCond onnxCond co])
+
+/-- The part of `_translate_loop_stmt` after the body statements: condition output, state outputs, the `Loop`
+node, rebinding. -/
 def loopFinish (L L2 : Locals) (state : List Name) (bound cond : Option Name)
     (condIn iv : Name) (ps : List Name) (whileVar : Option Name)
     (bn : List Node) (brkCond : Option Name) : M (Locals × List Node) :=
   match loopCondName L2 whileVar condIn with
   | none => failM .translation
   | some onnxCond => do
-    let condOut ← genUnique "cond_out"
-    let cnode : Node := condNode brkCond onnxCond condOut
-    let (os, ns3) ← loopOutputs L2 state (bn ++ [cnode]) [condOut]
+    let (condOut, cns) ← condNodes whileVar brkCond onnxCond
+    let (os, ns3) ← loopOutputs L2 state (bn ++ cns) [condOut]
     let (inits, ns4) ← loopInits L state
     let outs ← genUniques state
     pure (bindVals L state outs,
-      ns4 ++ [.loop bound cond inits outs (iv :: condIn :: ps) (bn ++ (cnode :: ns3)) (condOut :: os)])
+      ns4 ++ [.loop bound cond inits outs (iv :: condIn :: ps) (bn ++ (cns ++ ns3)) (condOut :: os)])
+
+/-- (fc696f7) a loop that carries no state — nothing assigned in its body is read in a later iteration or after
+the loop — is refused (before, the `Loop` node was emitted without outputs and `_emit` died with IndexError). -/
+def needState {α : Type} (state : List Name) (a : α) : M α :=
+  if state.isEmpty then failM .translation else pure a
+
+/-- `cond_in` of a `for` loop; then (9b326d7) a loop whose variable is read after the loop is refused: the
+translation binds it only inside the body, Python leaves the last index in it; then the state check. -/
+def forCondIn (i : Name) (lo : VSet) (state : List Name) : M Name := do
+  let c ← genUnique "cond_in"
+  if lo.contains i then failM .translation else needState state c
+
+/-- The condition value of a `while` loop before the loop, then the state check. -/
+def whileCond (L : Locals) (t : Name) (state : List Name) : M (Name × List Node) := do
+  let r ← pyVar L t
+  needState state r
+
+/-- (9f69276) a `return` must be the last statement of the function body. -/
+def onlyLast {α : Type} (last : Bool) (m : M α) : M α :=
+  if last then m else failM .translation
 
 mutual
 /-- `_translate_stmt(node)` for a statement that is *not* directly a `return` of the function
@@ -518,8 +660,8 @@ def convStmt (L : Locals) : Stmt → VSet → M (Locals × List Node)
       | none => failM .value
       | some state => do
         let (ob, ns0) ← convExpr L bound (some "loop_bound")
-        let condIn ← genUnique "cond_in"
-        let (L1, iv, ps) ← loopEnter L i state
+        let condIn ← forCondIn i lo state
+        let (L1, iv, ps) ← loopEnter L i true state
         let (L2, bn, bc) ← convLoopBody L1 body (loopBodyLo (.for_ i okIter bound body) lo)
         let (L', nl) ← loopFinish L L2 state (some ob) none condIn iv ps none bn bc
         pure (L', ns0 ++ nl)
@@ -530,8 +672,9 @@ def convStmt (L : Locals) : Stmt → VSet → M (Locals × List Node)
       | none => failM .value
       | some state => do
         let condIn ← genUnique t
-        let (oc, ns0) ← pyVar L t
-        let (L1, iv, ps) ← loopEnter L "infinite_loop" state
+        let (oc, ns0) ← whileCond L t state
+        -- (0fa00ae) the iteration-number input is no longer bound to the Python name `infinite_loop`
+        let (L1, iv, ps) ← loopEnter L "infinite_loop" false state
         let (L2, bn, bc) ← convLoopBody L1 body (loopBodyLo (.while_ c body) lo)
         let (L', nl) ← loopFinish L L2 state none (some oc) condIn iv ps (some t) bn bc
         pure (L', ns0 ++ nl)
@@ -609,7 +752,7 @@ def convTop (inputs : List Name) (retCount : Option Nat) (L : Locals) :
     List Stmt → List Name → M (List Node × List Name)
   | [], outs => pure ([], outs)
   | .ret es bare :: ss, outs => do
-    let (outs1, ns1) ← convRetStmt L inputs retCount es bare outs
+    let (outs1, ns1) ← onlyLast ss.isEmpty (convRetStmt L inputs retCount es bare outs)
     let (ns2, outs2) ← convTop inputs retCount L ss outs1
     pure (ns1 ++ ns2, outs2)
   | s :: ss, outs => do
